@@ -68,7 +68,8 @@ Qed.
 Definition src (s : state) (X : nat) : Prop :=
   X = next_rid s \/
   (exists k r, codes (st s) k = Some (true, r) /\ r_id r = X) \/
-  (exists k r, refresh (st s) k = Some (true, r) /\ r_id r = X).
+  (exists k r, refresh (st s) k = Some (true, r) /\ r_id r = X) \/
+  (exists k b r, device (st s) k = Some (b, r) /\ r_id r = X).
 
 Lemma prov_pkce_token Src cfg s cl key v vh : prov Src (st s) (st (fst (pkce_token cfg s cl key v vh))).
 Proof.
@@ -76,10 +77,9 @@ Proof.
   apply prov_eq_tables; reflexivity.
 Qed.
 
-Lemma prov_authorize cfg s a : prov (src s) (st s) (st (fst (authorize cfg s a))).
+Lemma prov_authorize_core cfg s cl a : prov (src s) (st s) (st (fst (authorize_core cfg s cl a))).
 Proof.
-  unfold authorize.
-  destruct (clients s (az_client a)) as [cl|]; [|apply prov_refl].
+  unfold authorize_core.
   destruct (negb (scopes_ok cfg cl (az_scopes a))); [apply prov_refl|].
   destruct (negb (aud_ok cfg (cl_aud cl) (az_aud a))); [apply prov_refl|].
   destruct (fresh_rid s) as [rid s1] eqn:E1.
@@ -95,6 +95,120 @@ Proof.
     + match goal with |- prov _ _ (create_pkce (create_code _ _ ?r) _ _) =>
         eapply prov_trans; [apply (P r); reflexivity|] end.
       apply prov_eq_tables; reflexivity.
+Qed.
+
+Lemma prov_authorize cfg s a : prov (src s) (st s) (st (fst (authorize cfg s a))).
+Proof.
+  unfold authorize. destruct (cf_par_enforced cfg); [apply prov_refl|].
+  destruct (clients s (az_client a)) as [cl|]; [|apply prov_refl]. apply prov_authorize_core.
+Qed.
+
+Lemma src_same s s' :
+  next_rid s' = next_rid s -> codes (st s') = codes (st s) -> refresh (st s') = refresh (st s) -> device (st s') = device (st s) ->
+  forall X, src s' X -> src s X.
+Proof. intros Hn Hc Hr Hd X. unfold src. rewrite Hn, Hc, Hr, Hd. auto. Qed.
+
+Lemma prov_weaken (S1 S2 : nat -> Prop) x y : (forall X, S1 X -> S2 X) -> prov S1 x y -> prov S2 x y.
+Proof.
+  intros HS [A [R C]]. repeat split; intros k r H.
+  - destruct (A _ _ H); auto. - destruct (R _ _ H); auto. - destruct (C _ _ H); auto.
+Qed.
+
+Lemma prov_authorize_par cfg s cp uri a : prov (src s) (st s) (st (fst (authorize_par cfg s cp uri a))).
+Proof.
+  unfold authorize_par.
+  destruct (key_of s uri) as [k|]; [|apply prov_refl].
+  destruct (par (st s) k) as [pr|]; [|apply prov_refl].
+  destruct (negb (Nat.eqb cp (r_client pr))); [apply prov_eq_tables; reflexivity|].
+  match goal with |- context [authorize_core cfg ?s1 ?cl ?a'] =>
+    pose proof (prov_authorize_core cfg s1 cl a') as P; set (res := authorize_core cfg s1 cl a') in * end.
+  eapply prov_trans; [apply prov_eq_tables; reflexivity|].
+  eapply prov_weaken; [|exact P]. apply src_same; reflexivity.
+Qed.
+
+Lemma push_tables cfg s auth bc ru a :
+  let s' := fst (push cfg s auth bc ru a) in
+  codes (st s') = codes (st s) /\ access (st s') = access (st s) /\ refresh (st s') = refresh (st s) /\
+  device (st s') = device (st s) /\ pkce (st s') = pkce (st s) /\
+  next_rid s <= next_rid s' /\ next_key s <= next_key s' /\ exists l, log s' = (log s ++ l)%list.
+Proof.
+  unfold push.
+  assert (R : codes (st s) = codes (st s) /\ access (st s) = access (st s) /\ refresh (st s) = refresh (st s) /\
+              device (st s) = device (st s) /\ pkce (st s) = pkce (st s) /\
+              next_rid s <= next_rid s /\ next_key s <= next_key s /\ exists l, log s = (log s ++ l)%list)
+    by (repeat split; try lia; exists []; now rewrite app_nil_r).
+  destruct auth as [c|]; [|exact R]. destruct (clients s c); [|exact R].
+  destruct ru; [exact R|].
+  destruct (clients s _) as [cl|]; [|exact R].
+  destruct (negb (scopes_ok cfg cl (az_scopes a))); [exact R|].
+  destruct (negb (aud_ok cfg (cl_aud cl) (az_aud a))); [exact R|].
+  destruct (fresh_rid s) as [rid s1] eqn:E1.
+  destruct (fresh_rid_spec _ _ _ E1) as [_ [_ [Hst1 [Hnr1 [Hnk1 [_ Hl1]]]]]].
+  destruct (mint s1 KPar rid) as [k s2] eqn:E2.
+  destruct (mint_spec _ _ _ _ _ E2) as [_ [_ [Hst2 [Hnr2 [Hnk2 [_ Hl2]]]]]].
+  cbn. rewrite Hst2, Hst1, Hl2, Hl1. repeat split; try lia. eauto.
+Qed.
+
+Lemma device_authorize_tables cfg s auth bc sc au :
+  let s' := fst (device_authorize cfg s auth bc sc au) in
+  codes (st s') = codes (st s) /\ access (st s') = access (st s) /\ refresh (st s') = refresh (st s) /\
+  pkce (st s') = pkce (st s) /\
+  next_rid s <= next_rid s' /\ next_key s <= next_key s' /\ (exists l, log s' = (log s ++ l)%list) /\
+  (forall k b r, device (st s') k = Some (b, r) -> device (st s) k = Some (b, r) \/ r_id r = next_rid s) /\
+  (forall k, k < next_key s -> device (st s') k = device (st s) k).
+Proof.
+  unfold device_authorize.
+  assert (R : codes (st s) = codes (st s) /\ access (st s) = access (st s) /\ refresh (st s) = refresh (st s) /\
+              pkce (st s) = pkce (st s) /\
+              next_rid s <= next_rid s /\ next_key s <= next_key s /\ (exists l, log s = (log s ++ l)%list) /\
+              (forall k b r, device (st s) k = Some (b, r) -> device (st s) k = Some (b, r) \/ r_id r = next_rid s) /\
+              (forall k, k < next_key s -> device (st s) k = device (st s) k))
+    by (repeat split; try lia; auto; exists []; now rewrite app_nil_r).
+  destruct auth as [c|]; [|exact R]. destruct (clients s c) as [cl|]; [|exact R].
+  repeat match goal with |- context [if ?c then fail s _ else _] => destruct c; [exact R|] end.
+  destruct (fresh_rid s) as [rid s1] eqn:E1.
+  destruct (fresh_rid_spec _ _ _ E1) as [Hrid [_ [Hst1 [Hnr1 [Hnk1 [_ Hl1]]]]]].
+  destruct (mint s1 KDevice rid) as [kd s2] eqn:E2.
+  destruct (mint_spec _ _ _ _ _ E2) as [Hkd [_ [Hst2 [Hnr2 [Hnk2 [_ Hl2]]]]]].
+  destruct (mint s2 KUser rid) as [ku s3] eqn:E3.
+  destruct (mint_spec _ _ _ _ _ E3) as [_ [_ [Hst3 [Hnr3 [Hnk3 [_ Hl3]]]]]].
+  cbn. rewrite Hst3, Hst2, Hst1, Hl3, Hl2, Hl1. repeat split; try lia; eauto.
+  - intros k b r H. upd_case k kd; [injection H as <- <-; right; cbn; congruence|auto].
+  - intros k Hk. rewrite upd_neq by lia. reflexivity.
+Qed.
+
+Lemma decide_tables cfg s dev acc g ga sub :
+  let s' := fst (decide cfg s dev acc g ga sub) in
+  codes (st s') = codes (st s) /\ access (st s') = access (st s) /\ refresh (st s') = refresh (st s) /\
+  pkce (st s') = pkce (st s) /\ next_rid s' = next_rid s /\ next_key s' = next_key s /\ log s' = log s /\
+  (forall k b r, device (st s') k = Some (b, r) -> exists b0 r0, device (st s) k = Some (b0, r0) /\ r_id r0 = r_id r) /\
+  (forall k, device (st s) k = None -> device (st s') k = None).
+Proof.
+  unfold decide.
+  assert (R : codes (st s) = codes (st s) /\ access (st s) = access (st s) /\ refresh (st s) = refresh (st s) /\
+              pkce (st s) = pkce (st s) /\ next_rid s = next_rid s /\ next_key s = next_key s /\ log s = log s /\
+              (forall k b r, device (st s) k = Some (b, r) -> exists b0 r0, device (st s) k = Some (b0, r0) /\ r_id r0 = r_id r) /\
+              (forall k, device (st s) k = None -> device (st s) k = None)) by (repeat split; eauto).
+  destruct (key_of s dev) as [k|]; [|exact R].
+  destruct (device (st s) k) as [[b r]|] eqn:Ed; [|exact R].
+  destruct (expired _ _ _ _); [exact R|].
+  cbn. repeat split.
+  - intros k0 b0 r0 H. upd_case k0 k; [injection H as <- <-; subst; eauto|eauto].
+  - intros k0 H. upd_case k0 k; [subst; congruence|assumption].
+Qed.
+
+Lemma prov_device_poll cfg s auth dev : prov (src s) (st s) (st (fst (device_poll cfg s auth dev))).
+Proof.
+  unfold device_poll.
+  destruct auth as [c|]; [|apply prov_refl]. destruct (clients s c) as [cl|]; [|apply prov_refl].
+  destruct (negb (args_has (cl_grants cl) _)); [apply prov_refl|].
+  destruct (key_of s dev) as [k|]; [|apply prov_refl].
+  destruct (device (st s) k) as [[stt r]|] eqn:Ed; [|apply prov_refl].
+  repeat match goal with |- context [if ?c then fail s _ else _] => destruct c; [apply prov_refl|] end.
+  match goal with |- context [grant_tokens ?s2 ?stored ?w] =>
+    pose proof (prov_grant_tokens (src s) s2 stored w) as G; destruct (grant_tokens s2 stored w) as [s3 minted] end.
+  cbn [fst] in *. eapply prov_trans; [apply prov_eq_tables; reflexivity|]. apply G.
+  cbn. right. right. right. exists k, stt, r. auto.
 Qed.
 
 Lemma prov_redeem cfg s auth code redirect v vh : prov (src s) (st s) (st (fst (redeem cfg s auth code redirect v vh))).
@@ -136,7 +250,7 @@ Proof.
       pose proof (prov_grant_tokens (src s) s2 stored w) as G; destruct (grant_tokens s2 stored w) as [s3 minted] end.
     cbn [fst] in *. eapply prov_trans; [exact P1|].
     eapply prov_trans; [apply prov_revoke_access|]. apply G.
-    cbn. right. right. exists k, r. auto.
+    cbn. right. right. left. exists k, r. auto.
   - cbn [fst fail st set_store].
     eapply prov_trans; [apply prov_delete_refresh|].
     eapply prov_trans; [apply prov_revoke_refresh|apply prov_revoke_access].
@@ -186,6 +300,11 @@ Proof.
   - apply prov_authorize. - apply prov_redeem. - apply prov_refresh_flow. - apply prov_revoke.
   - apply prov_refl. - apply prov_refl. - apply prov_refl.
   - apply prov_password_flow. - apply prov_client_credentials_flow. - apply prov_refl.
+  - match goal with |- context [push cfg s ?x1 ?x2 ?x3 ?x4] => destruct (push_tables cfg s x1 x2 x3 x4) as [Hc [Ha [Hr _]]] end. now apply prov_eq_tables.
+  - apply prov_authorize_par.
+  - match goal with |- context [device_authorize cfg s ?x1 ?x2 ?x3 ?x4] => destruct (device_authorize_tables cfg s x1 x2 x3 x4) as [Hc [Ha [Hr _]]] end. now apply prov_eq_tables.
+  - match goal with |- context [decide cfg s ?x1 ?x2 ?x3 ?x4 ?x5] => destruct (decide_tables cfg s x1 x2 x3 x4 x5) as [Hc [Ha [Hr _]]] end. now apply prov_eq_tables.
+  - apply prov_device_poll.
 Qed.
 
 Lemma grant_tokens_next_rid s stored w : next_rid (fst (grant_tokens s stored w)) = next_rid s.
@@ -231,65 +350,246 @@ Ltac new_flows_tac s lem k :=
   match goal with |- context [fresh_grant s ?mk ?w] =>
     pose proof (lem s mk w) as FGfact; destruct (fresh_grant s mk w) as [?s2 ?minted] end.
 
-Lemma next_rid_step cfg s o : next_rid s <= next_rid (fst (step cfg s o)).
+(* counters and the log only grow *)
+Definition grows (s s' : state) : Prop :=
+  next_rid s <= next_rid s' /\ next_key s <= next_key s' /\ exists l, log s' = (log s ++ l)%list.
+
+Lemma grows_refl s : grows s s.
+Proof. repeat split; try lia. exists []. now rewrite app_nil_r. Qed.
+Lemma grows_trans a b c : grows a b -> grows b c -> grows a c.
 Proof.
-  pose proof (prov_step cfg s o) as _.
-  destruct o; cbn [step]; try (cbn; lia);
-    try (new_flows_tac s fresh_grant_next_rid ltac:(cbn; lia); cbn in *; lia).
-  - unfold authorize.
-    destruct (clients s (az_client a)) as [cl|]; [|cbn; lia].
-    destruct (negb (scopes_ok cfg cl (az_scopes a))); [cbn; lia|].
-    destruct (negb (aud_ok cfg (cl_aud cl) (az_aud a))); [cbn; lia|].
-    destruct (fresh_rid s) as [rid s1] eqn:E1. destruct (fresh_rid_spec _ _ _ E1) as [_ [_ [_ [Hn1 _]]]].
-    destruct (mint s1 KCode rid) as [k s2] eqn:E2. destruct (mint_spec _ _ _ _ _ E2) as [_ [_ [_ [Hn2 _]]]].
-    destruct (pkce_validate cfg (az_challenge a) (az_method a) cl); cbn [fst fail]; [cbn; lia|].
-    destruct (String.eqb (az_challenge a) "" && String.eqb (az_method a) ""); cbn; lia.
+  intros [R1 [K1 [l1 L1]]] [R2 [K2 [l2 L2]]]. repeat split; try lia.
+  exists (l1 ++ l2)%list. rewrite L2, L1. now rewrite app_assoc.
+Qed.
+Lemma grows_set_store s x : grows s (set_store s x).
+Proof. repeat split; cbn; try lia. exists []. now rewrite app_nil_r. Qed.
+Lemma grows_eq s s' : next_rid s' = next_rid s -> next_key s' = next_key s -> log s' = log s -> grows s s'.
+Proof. intros R K L. repeat split; try lia. exists []. rewrite app_nil_r. assumption. Qed.
+
+Lemma grows_grant_tokens s stored w : grows s (fst (grant_tokens s stored w)).
+Proof.
+  unfold grant_tokens.
+  destruct (mint s KAccess (r_id stored)) as [ka s2] eqn:E2.
+  destruct (mint_spec _ _ _ _ _ E2) as [_ [_ [_ [Hr2 [Hk2 [_ Hl2]]]]]].
+  destruct w.
+  - destruct (mint s2 KRefresh (r_id stored)) as [kr s3] eqn:E3.
+    destruct (mint_spec _ _ _ _ _ E3) as [_ [_ [_ [Hr3 [Hk3 [_ Hl3]]]]]].
+    unfold grows. cbn. rewrite Hl3, Hl2. repeat split; try lia. eauto.
+  - unfold grows. cbn. rewrite Hl2. repeat split; try lia. eauto.
+Qed.
+
+Lemma grows_fresh_grant s mk w : grows s (fst (fresh_grant s mk w)).
+Proof.
+  unfold fresh_grant. destruct (fresh_rid s) as [rid s1] eqn:E1.
+  destruct (fresh_rid_spec _ _ _ E1) as [_ [_ [_ [Hr [Hk [_ Hl]]]]]].
+  eapply grows_trans; [|apply grows_grant_tokens]. apply (grows_trans _ s1); [|apply grows_refl].
+  repeat split; try lia. exists []. now rewrite app_nil_r.
+Qed.
+
+Lemma grows_authorize_core cfg s cl a : grows s (fst (authorize_core cfg s cl a)).
+Proof.
+  unfold authorize_core.
+  destruct (negb (scopes_ok cfg cl (az_scopes a))); [apply grows_refl|].
+  destruct (negb (aud_ok cfg (cl_aud cl) (az_aud a))); [apply grows_refl|].
+  destruct (fresh_rid s) as [rid s1] eqn:E1. destruct (fresh_rid_spec _ _ _ E1) as [_ [_ [_ [Hn1 [Hk1 [_ Hl1]]]]]].
+  destruct (mint s1 KCode rid) as [k s2] eqn:E2. destruct (mint_spec _ _ _ _ _ E2) as [_ [_ [_ [Hn2 [Hk2 [_ Hl2]]]]]].
+  destruct (pkce_validate cfg (az_challenge a) (az_method a) cl); cbn [fst fail].
+  - unfold grows. cbn. rewrite <- Hl1, <- Hl2. repeat split; try lia. exists []. now rewrite app_nil_r.
+  - unfold grows. destruct (String.eqb (az_challenge a) "" && String.eqb (az_method a) ""); cbn; rewrite Hl2, Hl1; repeat split; try lia; eauto.
+Qed.
+
+Ltac gr := cbn [fst fail]; first [apply grows_refl | apply grows_set_store | (apply grows_eq; reflexivity)].
+
+Theorem grows_step cfg s o : grows s (fst (step cfg s o)).
+Proof.
+  destruct o; cbn [step]; try gr;
+    try (new_flows_tac s grows_fresh_grant ltac:(gr); exact FGfact).
+  - unfold authorize. destruct (cf_par_enforced cfg); [gr|].
+    destruct (clients s (az_client a)) as [cl|]; [|gr]. apply grows_authorize_core.
   - unfold redeem.
-    destruct auth as [c|]; [|cbn; lia].
-    destruct (clients s c) as [cl|]; [|cbn; lia].
-    destruct (negb (args_has (cl_grants cl) ["authorization_code"])); [cbn; lia|].
-    destruct (key_of s code) as [k|]; [|cbn; lia].
-    destruct (codes (st s) k) as [[[|] r]|] eqn:Ec; [| cbn; lia |cbn; lia].
-    destruct (p_tampered code); [cbn; lia|].
-    destruct (negb (Nat.eqb (r_client r) c)); [cbn; lia|].
-    destruct (negb (String.eqb (r_redirect r) "") && negb (String.eqb (r_redirect r) redirect)); [cbn; lia|].
-    assert (H1 : next_rid (fst (pkce_token cfg s cl (Some k) verifier verifier_s256)) = next_rid s)
-      by (destruct (pkce_token_state cfg s cl (Some k) verifier verifier_s256) as [->|[k0 ->]]; reflexivity).
-    destruct (pkce_token cfg s cl (Some k) verifier verifier_s256) as [s1 [e|]]; cbn [fst] in *; [cbn; lia|].
-    destruct (expired _ _ _ _); [cbn; lia|].
+    destruct auth as [c|]; [|gr].
+    destruct (clients s c) as [cl|]; [|gr].
+    destruct (negb (args_has (cl_grants cl) ["authorization_code"])); [gr|].
+    destruct (key_of s code) as [k|]; [|gr].
+    destruct (codes (st s) k) as [[[|] r]|] eqn:Ec; [| gr |gr].
+    destruct (p_tampered code); [gr|].
+    destruct (negb (Nat.eqb (r_client r) c)); [gr|].
+    destruct (negb (String.eqb (r_redirect r) "") && negb (String.eqb (r_redirect r) redirect)); [gr|].
+    assert (H1 : grows s (fst (pkce_token cfg s cl (Some k) verifier verifier_s256)))
+      by (destruct (pkce_token_state cfg s cl (Some k) verifier verifier_s256) as [->|[k0 ->]]; gr).
+    destruct (pkce_token cfg s cl (Some k) verifier verifier_s256) as [s1 [e|]]; cbn [fst] in *; [assumption|].
+    destruct (expired _ _ _ _); [assumption|].
     match goal with |- context [grant_tokens ?s2 ?stored ?w] =>
-      pose proof (grant_tokens_next_rid s2 stored w) as G; destruct (grant_tokens s2 stored w) as [s3 minted] end.
-    cbn in *. lia.
+      pose proof (grows_grant_tokens s2 stored w) as G; destruct (grant_tokens s2 stored w) as [s3 minted] end.
+    cbn [fst] in *. eapply grows_trans; [exact H1|]. eapply grows_trans; [|apply grows_set_store].
+    eapply grows_trans; [apply grows_set_store|exact G].
   - unfold refresh_flow.
-    destruct auth as [c|]; [|cbn; lia].
-    destruct (clients s c) as [cl|]; [|cbn; lia].
-    destruct (negb (args_has (cl_grants cl) ["refresh_token"])); [cbn; lia|].
-    destruct (key_of s tok) as [k|]; cbn [find]; [|cbn; lia].
-    destruct (refresh (st s) k) as [[[|] r]|] eqn:Er; [| cbn; lia |cbn; lia].
-    repeat match goal with |- context [if ?c then _ else _] => destruct c; [cbn; lia|] end.
-    destruct (rotate_refresh (st s) (r_id r)) as [st1 [e|]]; [cbn; lia|].
+    destruct auth as [c|]; [|gr].
+    destruct (clients s c) as [cl|]; [|gr].
+    destruct (negb (args_has (cl_grants cl) ["refresh_token"])); [gr|].
+    destruct (key_of s tok) as [k|]; cbn [find]; [|gr].
+    destruct (refresh (st s) k) as [[[|] r]|] eqn:Er; [| gr |gr].
+    repeat match goal with |- context [if ?c then _ else _] => destruct c; [gr|] end.
+    destruct (rotate_refresh (st s) (r_id r)) as [st1 [e|]]; [gr|].
     match goal with |- context [grant_tokens ?s2 ?stored ?w] =>
-      pose proof (grant_tokens_next_rid s2 stored w) as G; destruct (grant_tokens s2 stored w) as [s3 minted] end.
-    cbn in *. lia.
+      pose proof (grows_grant_tokens s2 stored w) as G; destruct (grant_tokens s2 stored w) as [s3 minted] end.
+    cbn [fst] in *. eapply grows_trans; [apply grows_set_store|exact G].
   - unfold revoke.
-    destruct auth as [c|]; [|cbn; lia].
-    destruct (clients s c); [|cbn; lia].
-    destruct (revoke_lookup s (key_of s tok) h) as [r|]; [|cbn; lia].
-    destruct (negb (Nat.eqb (r_client r) c)); cbn; lia.
+    destruct auth as [c|]; [|gr].
+    destruct (clients s c); [|gr].
+    destruct (revoke_lookup s (key_of s tok) h) as [r|]; [|gr].
+    destruct (negb (Nat.eqb (r_client r) c)); gr.
+  - match goal with |- context [push cfg s ?x1 ?x2 ?x3 ?x4] => destruct (push_tables cfg s x1 x2 x3 x4) as [_ [_ [_ [_ [_ [Hr [Hk Hl]]]]]]] end. repeat split; assumption.
+  - unfold authorize_par.
+    destruct (key_of s uri) as [k|]; [|gr].
+    destruct (par (st s) k) as [pr|]; [|gr].
+    match goal with |- context [if ?c then _ else _] => destruct c; [gr|] end.
+    eapply grows_trans; [apply grows_set_store|apply grows_authorize_core].
+  - match goal with |- context [device_authorize cfg s ?x1 ?x2 ?x3 ?x4] => destruct (device_authorize_tables cfg s x1 x2 x3 x4) as [_ [_ [_ [_ [Hr [Hk [Hl _]]]]]]] end. repeat split; assumption.
+  - match goal with |- context [decide cfg s ?x1 ?x2 ?x3 ?x4 ?x5] => destruct (decide_tables cfg s x1 x2 x3 x4 x5) as [_ [_ [_ [_ [Hr [Hk [Hl _]]]]]]] end. now apply grows_eq.
+  - unfold device_poll.
+    destruct auth as [c|]; [|gr]. destruct (clients s c) as [cl|]; [|gr].
+    destruct (negb (args_has (cl_grants cl) _)); [gr|].
+    destruct (key_of s dev) as [k|]; [|gr].
+    destruct (device (st s) k) as [[stt r]|] eqn:Ed; [|gr].
+    repeat match goal with |- context [if ?c then fail s _ else _] => destruct c; [gr|] end.
+    match goal with |- context [grant_tokens ?s2 ?stored ?w] =>
+      pose proof (grows_grant_tokens s2 stored w) as G; destruct (grant_tokens s2 stored w) as [s3 minted] end.
+    cbn [fst] in *. eapply grows_trans; [apply grows_set_store|exact G].
+Qed.
+
+Lemma next_rid_step cfg s o : next_rid s <= next_rid (fst (step cfg s o)).
+Proof. exact (proj1 (grows_step cfg s o)). Qed.
+Lemma next_key_step cfg s o : next_key s <= next_key (fst (step cfg s o)).
+Proof. exact (proj1 (proj2 (grows_step cfg s o))). Qed.
+Lemma log_step_prefix cfg s o : exists l, log (fst (step cfg s o)) = (log s ++ l)%list.
+Proof. exact (proj2 (proj2 (grows_step cfg s o))). Qed.
+Lemma log_run_nth cfg h : forall s i e, nth_error (log s) i = Some e -> nth_error (log (run cfg s h)) i = Some e.
+Proof.
+  unfold run. induction h as [|o h IH]; intros s i e Hn; cbn [fold_left]; [assumption|].
+  apply IH. destruct (log_step_prefix cfg s o) as [l ->].
+  rewrite nth_error_app1; [assumption|]. apply nth_error_Some. congruence.
 Qed.
 
 (* ------------------------------------------------------------------ dead families stay dead *)
+(* device records: a step keeps them (possibly updated by the user's decision, same request id), deletes
+   them, or creates one for the next fresh request id *)
+Lemma grant_tokens_device s stored w : device (st (fst (grant_tokens s stored w))) = device (st s).
+Proof.
+  unfold grant_tokens.
+  destruct (mint s KAccess (r_id stored)) as [ka s2] eqn:E2. destruct (mint_spec _ _ _ _ _ E2) as [_ [_ [H2 _]]].
+  destruct w.
+  - destruct (mint s2 KRefresh (r_id stored)) as [kr s3] eqn:E3. destruct (mint_spec _ _ _ _ _ E3) as [_ [_ [H3 _]]].
+    cbn. congruence.
+  - cbn. congruence.
+Qed.
+Lemma fresh_grant_device s mk w : device (st (fst (fresh_grant s mk w))) = device (st s).
+Proof.
+  unfold fresh_grant. destruct (fresh_rid s) as [rid s1] eqn:E1. destruct (fresh_rid_spec _ _ _ E1) as [_ [_ [H1 _]]].
+  rewrite grant_tokens_device. congruence.
+Qed.
+Lemma authorize_core_device cfg s cl a : device (st (fst (authorize_core cfg s cl a))) = device (st s).
+Proof.
+  unfold authorize_core.
+  destruct (negb (scopes_ok cfg cl (az_scopes a))); [reflexivity|].
+  destruct (negb (aud_ok cfg (cl_aud cl) (az_aud a))); [reflexivity|].
+  destruct (fresh_rid s) as [rid s1] eqn:E1. destruct (fresh_rid_spec _ _ _ E1) as [_ [_ [H1 _]]].
+  destruct (mint s1 KCode rid) as [k s2] eqn:E2. destruct (mint_spec _ _ _ _ _ E2) as [_ [_ [H2 _]]].
+  destruct (pkce_validate cfg (az_challenge a) (az_method a) cl); cbn [fst fail]; [cbn; congruence|].
+  destruct (String.eqb (az_challenge a) "" && String.eqb (az_method a) ""); cbn; congruence.
+Qed.
+Lemma revoke_access_device x X : device (revoke_access x X) = device x.
+Proof. unfold revoke_access. destruct (at_idx x X); reflexivity. Qed.
+Lemma revoke_refresh_device x X : device (fst (revoke_refresh x X)) = device x.
+Proof. unfold revoke_refresh. destruct (rt_idx x X) as [k|]; [destruct (refresh x k) as [[? ?]|]|]; reflexivity. Qed.
+Lemma invalidate_code_device x k : device (fst (invalidate_code x k)) = device x.
+Proof. unfold invalidate_code. destruct (codes x k) as [[? ?]|]; reflexivity. Qed.
+
+Definition dev_keeps (s s' : state) : Prop :=
+  forall k b r, device (st s') k = Some (b, r) ->
+    (exists b0 r0, device (st s) k = Some (b0, r0) /\ r_id r0 = r_id r) \/ r_id r = next_rid s.
+
+Lemma dev_keeps_eq s s' : device (st s') = device (st s) -> dev_keeps s s'.
+Proof. intros E k b r H. rewrite E in H. left. eauto. Qed.
+
+Theorem dev_keeps_step cfg s o : dev_keeps s (fst (step cfg s o)).
+Proof.
+  destruct o; cbn [step]; try (apply dev_keeps_eq; reflexivity);
+    try (new_flows_tac s fresh_grant_device ltac:(apply dev_keeps_eq; reflexivity); apply dev_keeps_eq; exact FGfact).
+  - unfold authorize. destruct (cf_par_enforced cfg); [apply dev_keeps_eq; reflexivity|].
+    destruct (clients s (az_client a)) as [cl|]; [|apply dev_keeps_eq; reflexivity].
+    apply dev_keeps_eq. apply authorize_core_device.
+  - apply dev_keeps_eq. unfold redeem.
+    destruct auth as [c|]; [|reflexivity].
+    destruct (clients s c) as [cl|]; [|reflexivity].
+    destruct (negb (args_has (cl_grants cl) ["authorization_code"])); [reflexivity|].
+    destruct (key_of s code) as [k|]; [|reflexivity].
+    destruct (codes (st s) k) as [[[|] r]|] eqn:Ec; [| |reflexivity].
+    + destruct (p_tampered code); [reflexivity|].
+      destruct (negb (Nat.eqb (r_client r) c)); [reflexivity|].
+      destruct (negb (String.eqb (r_redirect r) "") && negb (String.eqb (r_redirect r) redirect)); [reflexivity|].
+      assert (H1 : device (st (fst (pkce_token cfg s cl (Some k) verifier verifier_s256))) = device (st s))
+        by (destruct (pkce_token_state cfg s cl (Some k) verifier verifier_s256) as [->|[k0 ->]]; reflexivity).
+      destruct (pkce_token cfg s cl (Some k) verifier verifier_s256) as [s1 [e|]]; cbn [fst] in *; [assumption|].
+      destruct (expired _ _ _ _); [assumption|].
+      match goal with |- context [grant_tokens ?s2 ?stored ?w] =>
+        pose proof (grant_tokens_device s2 stored w) as G; destruct (grant_tokens s2 stored w) as [s3 minted] end.
+      cbn in *. rewrite G, invalidate_code_device. assumption.
+    + cbn. now rewrite revoke_refresh_device, revoke_access_device.
+  - apply dev_keeps_eq. unfold refresh_flow.
+    destruct auth as [c|]; [|reflexivity].
+    destruct (clients s c) as [cl|]; [|reflexivity].
+    destruct (negb (args_has (cl_grants cl) ["refresh_token"])); [reflexivity|].
+    destruct (key_of s tok) as [k|]; cbn [find]; [|reflexivity].
+    destruct (refresh (st s) k) as [[[|] r]|] eqn:Er; [| |reflexivity].
+    + repeat match goal with |- context [if ?c then _ else _] => destruct c; [reflexivity|] end.
+      unfold rotate_refresh. pose proof (revoke_refresh_device (st s) (r_id r)) as Td.
+      destruct (revoke_refresh (st s) (r_id r)) as [st1 [e|]]; cbn [fst] in *; [cbn; assumption|].
+      match goal with |- context [grant_tokens ?s2 ?stored ?w] =>
+        pose proof (grant_tokens_device s2 stored w) as G; destruct (grant_tokens s2 stored w) as [s3 minted] end.
+      cbn in *. now rewrite G, revoke_access_device.
+    + cbn. now rewrite revoke_access_device, revoke_refresh_device.
+  - apply dev_keeps_eq. unfold revoke.
+    destruct auth as [c|]; [|reflexivity].
+    destruct (clients s c); [|reflexivity].
+    destruct (revoke_lookup s (key_of s tok) h) as [r|]; [|reflexivity].
+    destruct (negb (Nat.eqb (r_client r) c)); [reflexivity|]. cbn. now rewrite revoke_access_device, revoke_refresh_device.
+  - apply dev_keeps_eq.
+    match goal with |- context [push cfg s ?x1 ?x2 ?x3 ?x4] => destruct (push_tables cfg s x1 x2 x3 x4) as [_ [_ [_ [Hd _]]]] end. assumption.
+  - apply dev_keeps_eq. unfold authorize_par.
+    destruct (key_of s uri) as [k|]; [|reflexivity].
+    destruct (par (st s) k) as [pr|]; [|reflexivity].
+    match goal with |- context [if ?c then _ else _] => destruct c; [reflexivity|] end.
+    rewrite authorize_core_device. reflexivity.
+  - match goal with |- context [device_authorize cfg s ?x1 ?x2 ?x3 ?x4] =>
+      destruct (device_authorize_tables cfg s x1 x2 x3 x4) as [_ [_ [_ [_ [_ [_ [_ [Hd _]]]]]]]] end.
+    intros k b r H. destruct (Hd k b r H); [left; eauto|right; assumption].
+  - match goal with |- context [decide cfg s ?x1 ?x2 ?x3 ?x4 ?x5] =>
+      destruct (decide_tables cfg s x1 x2 x3 x4 x5) as [_ [_ [_ [_ [_ [_ [_ [Hd _]]]]]]]] end.
+    intros k b r H. left. exact (Hd k b r H).
+  - unfold device_poll.
+    destruct auth as [c|]; [|apply dev_keeps_eq; reflexivity]. destruct (clients s c) as [cl|]; [|apply dev_keeps_eq; reflexivity].
+    destruct (negb (args_has (cl_grants cl) _)); [apply dev_keeps_eq; reflexivity|].
+    destruct (key_of s dev) as [k|]; [|apply dev_keeps_eq; reflexivity].
+    destruct (device (st s) k) as [[stt r]|] eqn:Ed; [|apply dev_keeps_eq; reflexivity].
+    repeat match goal with |- context [if ?c then fail s _ else _] => destruct c; [apply dev_keeps_eq; reflexivity|] end.
+    match goal with |- context [grant_tokens ?s2 ?stored ?w] =>
+      pose proof (grant_tokens_device s2 stored w) as G; destruct (grant_tokens s2 stored w) as [s3 minted] end.
+    cbn [fst] in *. intros k0 b0 r0 H. rewrite G in H. cbn in H. upd_case k0 k; [discriminate|]. left. eauto.
+Qed.
+
 Theorem dead_step cfg s o X :
   dead (st s) X -> X < next_rid s -> dead (st (fst (step cfg s o))) X /\ X < next_rid (fst (step cfg s o)).
 Proof.
-  intros [Da [Dr Dc]] Hlt. pose proof (prov_step cfg s o) as [PA [PR PC]].
-  pose proof (next_rid_step cfg s o) as Hn.
+  intros [Da [Dr [Dc Dd]]] Hlt. pose proof (prov_step cfg s o) as [PA [PR PC]].
+  pose proof (next_rid_step cfg s o) as Hn. pose proof (dev_keeps_step cfg s o) as DK.
   assert (NS : ~ src s X).
-  { intros [->|[[k [r [H <-]]]|[k [r [H <-]]]]]; [lia|eapply Dc; eauto|eapply Dr; eauto]. }
+  { intros [->|[[k [r [H <-]]]|[[k [r [H <-]]]|[k [b [r [H <-]]]]]]]; [lia|eapply Dc; eauto|eapply Dr; eauto|eapply Dd; eauto]. }
   split; [|lia]. repeat split.
   - intros k r H Heq. destruct (PA _ _ H) as [H0|H0]; [eapply Da; eauto|subst; auto].
   - intros k r H Heq. destruct (PR _ _ H) as [H0|H0]; [eapply Dr; eauto|subst; auto].
   - intros k r H Heq. destruct (PC _ _ H) as [H0|H0]; [eapply Dc; eauto|subst; auto].
+  - intros k b r H Heq. destruct (DK _ _ _ H) as [[b0 [r0 [H0 Hr0]]]|H0]; [eapply Dd; [exact H0|congruence]|lia].
 Qed.
 
 Theorem dead_run cfg h : forall s X, dead (st s) X -> X < next_rid s -> dead (st (run cfg s h)) X.
@@ -310,7 +610,7 @@ Theorem dead_credential_inactive cfg s X i e tampered h scopes :
   Inv s -> dead (st s) X -> nth_error (log s) i = Some e -> i_rid e = X ->
   introspect cfg s {| p_ref := CRef i; p_tampered := tampered |} h scopes = None.
 Proof.
-  intros I [Da [Dr Dc]] Hn Hrid.
+  intros I [Da [Dr [Dc Dd]]] Hn Hrid.
   assert (Ho : owner s (i_key e) = Some (i_kind e, X)).
   { rewrite <- Hrid. apply (inv_log_owner s I). eapply nth_error_In; eassumption. }
   assert (HA : introspect_access cfg s (Some (i_key e)) tampered scopes = None).
@@ -327,24 +627,26 @@ Qed.
 
 (* ------------------------------------------------------------------ what kills a family *)
 Lemma kill_dead s X :
-  Inv s -> no_active_code_rid (st s) X ->
+  Inv s -> no_active_code_rid (st s) X -> no_device_rid (st s) X ->
   dead (revoke_access (fst (revoke_refresh (st s) X)) X) X /\ dead (fst (revoke_refresh (revoke_access (st s) X) X)) X.
 Proof.
-  intros I Dc. split.
+  intros I Dc Dd. split.
   - pose proof (Inv_revoke_refresh s X I) as I1.
     pose proof (revoke_access_no_access (set_store s (fst (revoke_refresh (st s) X))) X I1) as Ha. cbn in Ha.
     destruct (revoke_access_tables (fst (revoke_refresh (st s) X)) X) as [Tc [Tr _]].
     destruct (revoke_refresh_tables (st s) X) as [Tc' _].
-    repeat split; [exact Ha| |].
+    repeat split; [exact Ha| | |].
     + intros k r H. rewrite Tr in H. exact (revoke_refresh_no_active s X I k r H).
     + intros k r H. rewrite Tc, Tc' in H. eauto.
+    + intros k b r H. rewrite revoke_access_device, revoke_refresh_device in H. eauto.
   - pose proof (Inv_revoke_access s X I) as I1.
     pose proof (revoke_refresh_no_active (set_store s (revoke_access (st s) X)) X I1) as Hr. cbn in Hr.
     destruct (revoke_refresh_tables (revoke_access (st s) X) X) as [Tc [Ta _]].
     destruct (revoke_access_tables (st s) X) as [Tc' _].
-    repeat split; [|exact Hr|].
+    repeat split; [|exact Hr| |].
     + intros k r H. rewrite Ta in H. exact (revoke_access_no_access s X I k r H).
     + intros k r H. rewrite Tc, Tc' in H. eauto.
+    + intros k b r H. rewrite revoke_refresh_device, revoke_access_device in H. eauto.
 Qed.
 
 (* replay of a used authorization code by an authenticated client registered for the grant *)
@@ -355,8 +657,9 @@ Theorem replay_kills cfg s c cl code redirect v vh k r :
   o_err (snd res) = "invalid_grant" /\ o_minted (snd res) = [] /\ dead (st (fst res)) (r_id r).
 Proof.
   intros I Hc Hg Hk Hcode. unfold redeem. rewrite Hc, Hg, Hk, Hcode. cbn.
-  repeat split; try reflexivity; apply kill_dead; try assumption;
-  intros k' r' H Heq; assert (k' = k) by (eapply (inv_code_rid s I); eassumption); congruence.
+  split; [reflexivity|split; [reflexivity|]].
+  apply kill_dead; [assumption| |exact (inv_code_device s I _ _ _ Hcode)].
+  intros k' r' H Heq. assert (k' = k) by (eapply (inv_code_rid s I); eassumption). congruence.
 Qed.
 
 (* presentation of an already-used (inactive) refresh token *)
@@ -369,7 +672,7 @@ Proof.
   intros I Hc Hg Hk Hr. pose proof (inv_refresh_code s I _ _ _ Hr) as Dc. unfold refresh_flow. rewrite Hc, Hg, Hk. cbn [find negb]. rewrite Hr. cbn.
   split; [reflexivity|split; [reflexivity|]].
   pose proof (Inv_delete_refresh s k I) as I1.
-  exact (proj1 (kill_dead (set_store s (delete_refresh (st s) k)) (r_id r) I1 Dc)).
+  exact (proj1 (kill_dead (set_store s (delete_refresh (st s) k)) (r_id r) I1 Dc (inv_refresh_device s I _ _ _ Hr))).
 Qed.
 
 (* accepted revocation by the owning client *)
@@ -389,85 +692,13 @@ Theorem revoke_kills cfg s c cl tok h r :
   o_err (snd res) = "" /\ dead (st (fst res)) (r_id r).
 Proof.
   intros I Hc Hl Hcl. unfold revoke. rewrite Hc, Hl, Hcl, Nat.eqb_refl. cbn.
-  split; [reflexivity|]. apply kill_dead; [assumption|].
+  split; [reflexivity|].
   destruct (revoke_lookup_live _ _ _ _ Hl) as [k [_ [Ha|Hr]]].
-  - exact (inv_access_code s I _ _ Ha).
-  - exact (inv_refresh_code s I _ _ _ Hr).
+  - apply kill_dead; [assumption|exact (inv_access_code s I _ _ Ha)|exact (inv_access_device s I _ _ Ha)].
+  - apply kill_dead; [assumption|exact (inv_refresh_code s I _ _ _ Hr)|exact (inv_refresh_device s I _ _ _ Hr)].
 Qed.
 
 (* ------------------------------------------------------------------ single use *)
-Lemma code_inactive_step cfg s o k r :
-  Inv s -> codes (st s) k = Some (false, r) -> exists r', codes (st (fst (step cfg s o))) k = Some (false, r') /\ r_id r' = r_id r.
-Proof.
-  intros I H.
-  assert (Hfresh : k < next_key s) by (exact (proj1 (inv_code_fresh s _ _ _ I H))).
-  assert (G : forall x, codes x = codes (st s) -> exists r', codes x k = Some (false, r') /\ r_id r' = r_id r)
-    by (intros x ->; eauto).
-  destruct o; cbn [step]; try (apply G; reflexivity);
-    try (new_flows_tac s fresh_grant_codes ltac:(apply G; reflexivity); cbn in *; apply G; assumption).
-  - unfold authorize.
-    destruct (clients s (az_client a)) as [cl|]; [|eauto].
-    destruct (negb (scopes_ok cfg cl (az_scopes a))); [eauto|].
-    destruct (negb (aud_ok cfg (cl_aud cl) (az_aud a))); [eauto|].
-    cbn [fresh_rid mint].
-    assert (E : forall rec, upd (codes (st s)) (next_key s) (Some (true, rec)) k = Some (false, r))
-      by (intros rec; rewrite upd_neq by lia; assumption).
-    destruct (pkce_validate cfg (az_challenge a) (az_method a) cl); cbn [fst fail]; [cbn; eauto|].
-    destruct (String.eqb (az_challenge a) "" && String.eqb (az_method a) ""); cbn; eauto.
-  - unfold redeem.
-    destruct auth as [c|]; [|eauto].
-    destruct (clients s c) as [cl|]; [|eauto].
-    destruct (negb (args_has (cl_grants cl) ["authorization_code"])); [eauto|].
-    destruct (key_of s code) as [k0|]; [|eauto].
-    destruct (codes (st s) k0) as [[[|] r0]|] eqn:Ec; [| |eauto].
-    + destruct (p_tampered code); [eauto|].
-      destruct (negb (Nat.eqb (r_client r0) c)); [eauto|].
-      destruct (negb (String.eqb (r_redirect r0) "") && negb (String.eqb (r_redirect r0) redirect)); [eauto|].
-      assert (H1 : codes (st (fst (pkce_token cfg s cl (Some k0) verifier verifier_s256))) = codes (st s))
-        by (destruct (pkce_token_state cfg s cl (Some k0) verifier verifier_s256) as [->|[k1 ->]]; reflexivity).
-      destruct (pkce_token cfg s cl (Some k0) verifier verifier_s256) as [s1 [e|]]; cbn [fst] in *; [apply G; assumption|].
-      destruct (expired _ _ _ _); [apply G; assumption|].
-      assert (Hk0 : k <> k0) by congruence.
-      match goal with |- context [grant_tokens ?s2 ?stored ?w] =>
-        pose proof (grant_tokens_codes s2 stored w) as GT; destruct (grant_tokens s2 stored w) as [s3 minted] end.
-      cbn in *. rewrite GT. unfold invalidate_code. rewrite H1, Ec. cbn. rewrite upd_neq by assumption. eauto.
-    + cbn. destruct (revoke_refresh_tables (revoke_access (st s) (r_id r0)) (r_id r0)) as [Tc _].
-      destruct (revoke_access_tables (st s) (r_id r0)) as [Tc' _]. rewrite Tc, Tc'. eauto.
-  - unfold refresh_flow.
-    destruct auth as [c|]; [|eauto].
-    destruct (clients s c) as [cl|]; [|eauto].
-    destruct (negb (args_has (cl_grants cl) ["refresh_token"])); [eauto|].
-    destruct (key_of s tok) as [k0|]; cbn [find]; [|eauto].
-    destruct (refresh (st s) k0) as [[[|] r0]|] eqn:Er; [| |eauto].
-    + repeat match goal with |- context [if ?c then _ else _] => destruct c; [eauto|] end.
-      unfold rotate_refresh.
-      destruct (revoke_refresh_tables (st s) (r_id r0)) as [Tc _].
-      destruct (revoke_refresh (st s) (r_id r0)) as [st1 [e|]]; cbn [fst] in *; [cbn; rewrite Tc; eauto|].
-      destruct (revoke_access_tables st1 (r_id r0)) as [Tc' _].
-      match goal with |- context [grant_tokens ?s2 ?stored ?w] =>
-        pose proof (grant_tokens_codes s2 stored w) as GT; destruct (grant_tokens s2 stored w) as [s3 minted] end.
-      cbn in *. rewrite GT, Tc', Tc. eauto.
-    + cbn.
-      destruct (revoke_access_tables (fst (revoke_refresh (delete_refresh (st s) k0) (r_id r0))) (r_id r0)) as [Tc _].
-      destruct (revoke_refresh_tables (delete_refresh (st s) k0) (r_id r0)) as [Tc' _].
-      rewrite Tc, Tc'. cbn. eauto.
-  - unfold revoke.
-    destruct auth as [c|]; [|eauto].
-    destruct (clients s c); [|eauto].
-    destruct (revoke_lookup s (key_of s tok) h) as [r0|]; [|eauto].
-    destruct (negb (Nat.eqb (r_client r0) c)); [eauto|]. cbn.
-    destruct (revoke_access_tables (fst (revoke_refresh (st s) (r_id r0))) (r_id r0)) as [Tc _].
-    destruct (revoke_refresh_tables (st s) (r_id r0)) as [Tc' _]. rewrite Tc, Tc'. eauto.
-Qed.
-
-Theorem code_inactive_run cfg h : forall s k r,
-  Inv s -> codes (st s) k = Some (false, r) -> exists r', codes (st (run cfg s h)) k = Some (false, r') /\ r_id r' = r_id r.
-Proof.
-  unfold run. induction h as [|o h IH]; intros s k r I H; cbn [fold_left]; [eauto|].
-  destruct (code_inactive_step cfg s o k r I H) as [r' [H' Hr]].
-  destruct (IH _ k r' (Inv_step cfg s o I) H') as [r'' [H'' Hr']]. exists r''. split; [assumption|congruence].
-Qed.
-
 (* a successful redemption consumes an active code *)
 Theorem redeem_ok_consumes cfg s auth code redirect v vh :
   o_err (snd (redeem cfg s auth code redirect v vh)) = "" ->
